@@ -1,6 +1,7 @@
 import Driver.Proto
 import SsqlVerif.Model.Tumbling
 import SsqlVerif.Model.Sliding
+import SsqlVerif.Model.SlidingLate
 import SsqlVerif.Spec.Window
 set_option autoImplicit false
 open Proto
@@ -25,7 +26,7 @@ def emLine (e : Emission) : List String :=
 
 /-- the executable interface of a window model -/
 structure Machine (σ : Type) where
-  add : σ → Row → Int → σ × List Emission
+  add : σ → Row → Int → Option Int → σ × List Emission   -- last argument: observed late-update target (witness of a Go map-order choice)
   pop : σ → σ
   iter : σ → σ × List Emission
   tick : σ → Int → σ
@@ -49,28 +50,35 @@ def parseGap (g : String) : Option Gap :=
 
 variable {σ : Type}
 
-def addRow (m : Machine σ) (s : σ) (id : Nat) (ts : Option Int) (now : Int) : σ × List Emission :=
+def addRow (m : Machine σ) (s : σ) (id : Nat) (ts : Option Int) (now : Int) (hint : Option Int := none) : σ × List Emission :=
   match ts with
   | none => (s, [])
-  | some t => m.add s { id := id, ts := t } now
+  | some t => m.add s { id := id, ts := t } now hint
 
-/-- run the trigger loop for the already popped watermark; gap adds fire after the k-th emission -/
-partial def triggerLoop [Inhabited σ] (m : Machine σ) (s : σ) (gaps : List Gap) (now : Int) (k : Nat) (acc : List Emission) :
-    σ × List Emission × Nat :=
+/-- starts of the late re-deliveries the implementation produced during one op, in order -/
+def lemitStarts (obs : List (List String)) : List Int :=
+  obs.filterMap fun l => match l with
+    | "lemit" :: a :: _ => parseInt a
+    | _ => none
+
+/-- run the trigger loop for the already popped watermark; gap adds fire after the k-th emission;
+`hints` = observed late-update targets of this op, consumed one per late update -/
+partial def triggerLoop [Inhabited σ] (m : Machine σ) (s : σ) (gaps : List Gap) (now : Int) (k : Nat) (acc : List Emission)
+    (hints : List Int) : σ × List Emission × Nat :=
   if !m.busy s then (s, acc, k) else
   let (s1, es) := m.iter s
   match es with
-  | [] => triggerLoop m s1 gaps now k acc
+  | [] => triggerLoop m s1 gaps now k acc hints
   | e :: _ =>
-    let (s2, acc2, k2) := (gaps.filter (·.k == k)).foldl (fun (st : σ × List Emission × Nat) g =>
-        let (s', es') := addRow m st.1 g.id g.ts now
-        (s', st.2.1 ++ es', st.2.2)) (s1, acc ++ [e], k + 1)
-    triggerLoop m s2 gaps now k2 acc2
+    let (s2, acc2, hints2) := (gaps.filter (·.k == k)).foldl (fun (st : σ × List Emission × List Int) g =>
+        let (s', es') := addRow m st.1 g.id g.ts now st.2.2.head?
+        (s', st.2.1 ++ es', if es'.isEmpty then st.2.2 else st.2.2.drop 1)) (s1, acc ++ [e], hints)
+    triggerLoop m s2 gaps now (k + 1) acc2 hints2
 
-def deliver [Inhabited σ] (m : Machine σ) (s : σ) (gaps : List Gap) (now : Int) : Option (σ × List Emission) :=
+def deliver [Inhabited σ] (m : Machine σ) (s : σ) (gaps : List Gap) (now : Int) (hints : List Int := []) : Option (σ × List Emission) :=
   if m.chanEmpty s then none else
   let s1 := m.pop s
-  let (s2, es, _) := triggerLoop m s1 gaps now 0 []
+  let (s2, es, _) := triggerLoop m s1 gaps now 0 [] hints
   some (s2, es)
 
 partial def drain [Inhabited σ] (m : Machine σ) (s : σ) (now : Int) (acc : List Emission) : σ × List Emission :=
@@ -121,14 +129,14 @@ def runWith [Inhabited σ] (m : Machine σ) (s0 : σ) (scfg : WinSpec.Cfg) (c : 
         | some t => for t' in m.tagAdd s { id := id, ts := t } now do
                       unless tags.contains t' do tags := t' :: tags
         | none => unless tags.contains "no-timestamp" do tags := "no-timestamp" :: tags
-        let (s', es) := addRow m s id ts now
+        let (s', es) := addRow m s id ts now (lemitStarts implObs).head?
         s := s'
         obs := obs ++ [es.map emLine]
         evs := evs ++ [WinSpec.Ev.arr id ts] ++ evsOfObs implObs []
       flushed := false
     | "deliver" :: gs =>
       let gaps := gs.filterMap parseGap
-      match deliver m s gaps now with
+      match deliver m s gaps now (lemitStarts implObs) with
       | none => obs := obs ++ [[["idle"]]]
       | some (s', es) =>
         s := s'
@@ -169,10 +177,10 @@ def runWith [Inhabited σ] (m : Machine σ) (s0 : σ) (scfg : WinSpec.Cfg) (c : 
   return { obs := obs, spec := spec, tags := tags }
 
 instance : Inhabited Tumbling.TW := ⟨Tumbling.init 1 0 0⟩
-instance : Inhabited Sliding.SW := ⟨Sliding.init 1 1 0⟩
+instance : Inhabited SlidingLate.SWL := ⟨SlidingLate.init 1 1 0 0⟩
 
 def tumblingMachine : Machine Tumbling.TW where
-  add := Tumbling.stepAdd
+  add := fun s r now _ => Tumbling.stepAdd s r now
   pop := Tumbling.stepPop
   iter := Tumbling.stepIter
   tick := fun s now => { s with wm := Wm.tick s.wm false now }
@@ -189,23 +197,26 @@ def tumblingMachine : Machine Tumbling.TW where
     ((if Wm.tooFar s.wm r.ts now then ["far-future-guard"] else []) ++
      (if s.wm.chan.length ≥ s.wm.cap then ["watermark-channel-full"] else []))
 
-def slidingMachine : Machine Sliding.SW where
-  add := fun s r now => (Sliding.stepAdd s r now, [])
-  pop := Sliding.stepPop
-  iter := Sliding.stepIter
-  tick := fun s now => { s with wm := Wm.tick s.wm false now }
-  busy := fun s => s.trigW.isSome
-  chanEmpty := fun s => s.wm.chan.isEmpty
+def slidingMachine : Machine SlidingLate.SWL where
+  add := fun s r now h => SlidingLate.stepAdd s r now h
+  pop := SlidingLate.stepPop
+  iter := SlidingLate.stepIter
+  tick := fun s now => SlidingLate.tick s false now
+  busy := fun s => s.base.trigW.isSome
+  chanEmpty := fun s => s.base.wm.chan.isEmpty
   ptAdd := fun s _ => s
   ptTick := fun s => (s, [])
   tagAdd := fun s r now =>
-    (if Sliding.kept s r now then
-       (if Sliding.lateNow s r now then "late-kept-in-current" else
-         (if (match s.cur with | some c => decide (r.ts < c) | none => false) then
-            (if s.advanced then "ontime-in-gap-before-current-slot" else "ontime-before-current-slot") else "ontime"))
+    (if !(SlidingLate.lateTargets s r now).isEmpty then
+       (if (SlidingLate.lateTargets s r now).length > 1 then "late-update-several-windows"
+        else (if Sliding.kept s.base r now then "late-update-and-kept-in-current" else "late-update"))
+     else if Sliding.kept s.base r now then
+       (if Sliding.lateNow s.base r now then "late-kept-in-current" else
+         (if (match s.base.cur with | some c => decide (r.ts < c) | none => false) then
+            (if s.base.advanced then "ontime-in-gap-before-current-slot" else "ontime-before-current-slot") else "ontime"))
      else "late-drop") ::
-    ((if Wm.tooFar s.wm r.ts now then ["far-future-guard"] else []) ++
-     (if s.wm.chan.length ≥ s.wm.cap then ["watermark-channel-full"] else []))
+    ((if Wm.tooFar s.base.wm r.ts now then ["far-future-guard"] else []) ++
+     (if s.base.wm.chan.length ≥ s.base.wm.cap then ["watermark-channel-full"] else []))
 
 /-- SQL-level stage: no model trace (the free-running schedule decides which late rows survive);
 the declarative oracle is evaluated on the delivered result rows, plus the aggregate columns:
@@ -256,7 +267,7 @@ def run (c : Case) : CaseOut :=
   match cfgStr c "kind" "tumbling" with
   | "sliding" =>
     let slide := cfgInt c "slide" 500
-    runWith slidingMachine (Sliding.init size slide ooo)
+    runWith slidingMachine (SlidingLate.init size slide ooo late)
       { size := size, slide := slide, ooo := ooo, lateness := late, now := now } c
   | _ =>
     runWith tumblingMachine (Tumbling.init size ooo late)
